@@ -74,6 +74,7 @@ FOCUS4 = {
 FOCUS5 = {pid: "a place of your own choosing that a reviewer would be least likely to look at: an interaction between two features, a rarely used public entry point or option, a numerically or structurally degenerate input (empty, size one, all equal, zero, repeated calls on one object), or a code path taken only under jit / vmap / several environments" for pid in FOCUS}
 FOCUS6 = {pid: "not the listed files themselves but something they rely on: a shared helper or utility module, an abstract base-class method, a default value of a field or argument, an `__init__` that normalises its arguments; or a non-default constructor option / hyper-parameter value (legal, documented, but never set by the tests) under which the code takes a different path" for pid in FOCUS}
 FOCUS7 = {pid: "a defect that needs TWO circumstances at once (each alone is handled correctly): e.g. parallel environments whose episodes end at different steps, a wrapper stack of depth two or more in an unusual order, an action mask together with a key-less (greedy) call, a buffer that has wrapped around AND is sampled jointly, the last element / last iteration / very first call of a loop, an option combination that is legal but unusual; or an off-by-one that only shows at such a boundary" for pid in FOCUS}
+FOCUS8 = {pid: "any part of the statement you like - but make the change look like an improvement a reviewer would wave through (a performance fast path, a refactoring into a helper, a more defensive default, support for a new option, numerical stabilisation), and make it wrong only for inputs or configurations the tests and ordinary use never reach" for pid in FOCUS}
 T = open("/verif/tools/seed_prompt_template.txt").read()
 for pid, p in sorted(props.items()):
     if only and pid not in only:
@@ -84,6 +85,6 @@ for pid, p in sorted(props.items()):
         subprocess.run(["git", "-C", "/repo", "worktree", "add", "--detach", wt, "HEAD"], check=True, capture_output=True)
     txt = (T.replace("@WT@", wt).replace("@ID@", pid).replace("@TITLE@", p["title"]).replace("@STATEMENT@", p["statement"])
            .replace("@QUANT@", p["quantifier"]["text"]).replace("@FILES@", ", ".join(p["anchors"]["files"]))
-           .replace("@FOCUS@", ({"3": FOCUS3, "4": FOCUS4, "5": FOCUS5, "6": FOCUS6, "7": FOCUS7}.get(tag, FOCUS))[pid]))
+           .replace("@FOCUS@", ({"3": FOCUS3, "4": FOCUS4, "5": FOCUS5, "6": FOCUS6, "7": FOCUS7, "8": FOCUS8}.get(tag, FOCUS))[pid]))
     open(f"/tmp/prompt_{tag}_{pid}.txt", "w").write(txt)
     print(pid, wt)
